@@ -147,6 +147,8 @@ def cmd_runall(pattern):
 if __name__ == '__main__':
     if sys.argv[1] == 'verify':
         cmd_verify(sys.argv[2], sys.argv[3])
+    elif sys.argv[1] == 'srun':      # like run, but in a scratch worktree (VERIF_REPO), /repo untouched
+        cmd_run(sys.argv[2], sys.argv[3:], scratch=True)
     elif sys.argv[1] == 'runall':
         cmd_runall(sys.argv[2])
     else:
